@@ -89,7 +89,10 @@ def get_coinbase_txn(raw_block_hex):
     num_fields = len(block)
     if num_fields not in [19, 20]:
         raise ValueError("Block header must have 19 or 20 elements, got %d", num_fields)
-    return block[-1].hex()
+    coinbase_txn = block[-1]
+    if type(coinbase_txn) != bytes:
+        raise ValueError("Coinbase transaction must be a byte string")
+    return coinbase_txn.hex()
 
 
 # Given a bytes object that represents an RLP-encoded list,
